@@ -108,6 +108,10 @@ func c05LoopConfigs(thorough bool) []*loop.Config {
 			d = 1
 		}
 		out = append(out, &loop.Config{Name: "move-pending/" + tag, Opt: o, Targets: ab, Shards: []loop.Seed{{1: "in_transfer", 2: ""}, {1: ""}}, Inflight: true, BudgetD: d})
+		if idle == 0 {
+			// a sidecar (source or destination) restarts once while the move is in progress
+			out = append(out, &loop.Config{Name: "move-pending+sidecar-restart/" + tag, Opt: o, Targets: ab, Shards: []loop.Seed{{1: "in_transfer", 2: ""}, {1: ""}}, BudgetF: 1, FaultKinds: []string{"restart"}})
+		}
 		out = append(out, &loop.Config{Name: "move-about-to-start/" + tag, Opt: o, Targets: abc, Shards: []loop.Seed{{1: "", 2: "", 3: ""}, {}}, Inflight: true, BudgetD: d})
 		if idle != 0 {
 			// a scale-down move: the tail shard's only target fits the front shard
